@@ -225,6 +225,7 @@ type world struct {
 	stops []chan struct{} // environments replaced by a rebuild, stopped at the end of the case
 	byID  map[string]*svcSpec
 
+	lastKey  *model.ConfigKey // the object of the last update / delete
 	queries  [][]string // scope queries of the case (oracle)
 	deferred string     // a known-class failure, reported only when the case shows nothing else
 }
@@ -1208,6 +1209,7 @@ func (w *world) update(t []string) string {
 	})
 	w.ps = ps
 	w.env.SetPushContext(ps)
+	w.lastKey = &key
 	return "ok"
 }
 
